@@ -153,6 +153,12 @@ fn c13_transports(t: &mut Tctx, u: u128, name_len: usize) {
         ("to_extend", catch(|| postcard::to_extend(&v, Vec::new()))),
         ("to_io", catch(|| postcard::to_io(&v, StdEnd(Endpoint::writer(sched, Fault::None))).map(|w| w.0.data))),
         ("to_io_vec", catch(|| postcard::to_io(&v, Vec::new()))),
+        // a std writer that reports ErrorKind::Interrupted once before every byte offset: retried, never an error
+        ("to_io_interrupted_everywhere", catch(|| {
+            let mut ep = Endpoint::writer(sched, Fault::None);
+            ep.interrupts = (0..want.len()).collect();
+            postcard::to_io(&v, StdEnd(ep)).map(|w| w.0.data)
+        })),
         ("to_eio", catch(|| postcard::to_eio(&v, EioEnd(Endpoint::writer(sched, Fault::None))).map(|w| w.0.data))),
     ];
     for (name_e, r) in encs {
@@ -175,6 +181,16 @@ fn c13_transports(t: &mut Tctx, u: u128, name_len: usize) {
         catch(|| postcard::from_io::<FixMixed, _>((StdEnd(Endpoint::reader(&want, sched, Fault::None)), &mut scratch[..])).map(|(x, _)| x == v)),
         Ok(Ok(true))
     );
+    let mut scratch3 = vec![0u8; name.len()];
+    let ok_io_intr = matches!(
+        catch(|| {
+            let mut ep = Endpoint::reader(&want, sched, Fault::None);
+            ep.interrupts = (0..want.len()).collect();
+            postcard::from_io::<FixMixed, _>((StdEnd(ep), &mut scratch3[..])).map(|(x, _)| x == v)
+        }),
+        Ok(Ok(true))
+    );
+    let ok_io = ok_io && ok_io_intr;
     let mut scratch2 = vec![0u8; name.len()];
     let ok_eio = matches!(
         catch(|| postcard::from_eio::<FixMixed, _>((EioEnd(Endpoint::reader(&want, sched, Fault::None)), &mut scratch2[..])).map(|(x, _)| x == v)),
@@ -183,7 +199,7 @@ fn c13_transports(t: &mut Tctx, u: u128, name_len: usize) {
     if !(ok_slice && ok_io && ok_eio) {
         t.st.violation(
             "C13:transport-decode-differs",
-            format!("decoding a struct with fixed-width fields failed or differed (slice {}, from_io {}, from_eio {}; scratch = string length {})", ok_slice, ok_io, ok_eio, name.len()),
+            format!("decoding a struct with fixed-width fields failed or differed (slice {}, from_io incl. a reader interrupted once before every offset {}, from_eio {}; scratch = string length {})", ok_slice, ok_io, ok_eio, name.len()),
             rp(),
         );
     }
@@ -639,6 +655,9 @@ pub fn run_c20(cfg: &Cfg) -> Report {
         }
     });
     rep.stats.merge(s);
+    let s = parallel(cfg, 2, |t| impure_values_lane(t, "C20"));
+    rep.stats.merge(s);
+    rep.floor("impure_value_cases", 20);
     rep.rule = "cases = (value, flavour stack, innermost storage): random-shape values and values crafted around the COBS block length; stacks = plain, Cobs<S>, CrcModifier<S,W> \
                 (10 algorithms, 5 widths), CrcModifier<Cobs<S>,W>; S = Slice, AllocVec, HVec<1024> (subset of algorithms), recording user flavours (push-only and with a block-write \
                 override) alone and as innermost storage. Expected output = composition of the reference COBS/CRC transforms on the reference plain encoding. distinct = (shape, plain)."
